@@ -79,6 +79,8 @@ type ex struct {
 	bodyMods   map[string]*body.Modifier
 	staticMod  *static.Modifier
 	staticFile map[string]string // content -> file name under tmp
+	fileMod    *static.Modifier  // op sfile: one instance, one path, content rewritten between requests
+	fileLen    int
 	held       []heldRes
 }
 
@@ -90,7 +92,7 @@ type heldRes struct {
 	hasHdr  bool
 }
 
-func (P) NewExec() core.Exec { return &ex{} }
+func (P) NewExec() core.Exec { return &ex{fileLen: -1} }
 func (e *ex) Close() {
 	if e.fx != nil {
 		os.RemoveAll(e.fx.tmp)
@@ -308,6 +310,49 @@ func (e *ex) Do(op string) core.Result {
 			m := static.NewModifier(e.tmp)
 			err = m.ModifyResponse(res)
 		}
+		obs, parts, r := observe(res, err, content)
+		if r.Fail != "" {
+			r.Impl = "inconsistent"
+			return r
+		}
+		r = oracle(obs, parts, content, hdr, hasHdr)
+		r.Impl = obs
+		core.Count("outcome:" + strings.Fields(obs)[0])
+		return r
+	case "sfile":
+		// sfile <content> <hdr>: ONE static.Modifier instance and ONE path per case; the file is rewritten to
+		// <content> (its length may change) and requested again. The answer must be about the file as it is now.
+		content, _ := core.Unhex(t[1])
+		hasHdr := t[2] != "none"
+		var hdr string
+		if hasHdr {
+			b, _ := core.Unhex(t[2])
+			hdr = string(b)
+		}
+		if e.tmp == "" {
+			e.tmp, _ = os.MkdirTemp("/var/tmp", "verif-c20s-")
+		}
+		if e.fileMod == nil {
+			e.fileMod = static.NewModifier(e.tmp)
+		}
+		switch {
+		case e.fileLen < 0:
+			core.Count("sfile:first")
+		case len(content) < e.fileLen:
+			core.Count("sfile:shrunk")
+		case len(content) > e.fileLen:
+			core.Count("sfile:grown")
+		default:
+			core.Count("sfile:same-length")
+		}
+		e.fileLen = len(content)
+		os.WriteFile(filepath.Join(e.tmp, "served.bin"), content, 0o644)
+		req, _ := http.NewRequest("GET", "http://example.com/served.bin", nil)
+		if hasHdr {
+			req.Header["Range"] = []string{hdr}
+		}
+		res := proxyutil.NewResponse(200, strings.NewReader("original"), req)
+		err := e.fileMod.ModifyResponse(res)
 		obs, parts, r := observe(res, err, content)
 		if r.Fail != "" {
 			r.Impl = "inconsistent"
@@ -674,9 +719,9 @@ func (P) Gen(r *core.Rand, tier string, emit func([]string)) {
 	if tier == "thorough" {
 		nHold = 600
 	}
-	asciiRange := func(n int) string {
+	asciiRange := func(rr *core.Rand, n int) string {
 		for {
-			h := genRange(r, n)
+			h := genRange(rr, n)
 			ok := true
 			for i := 0; i < len(h); i++ {
 				if h[i] >= 0x80 {
@@ -706,7 +751,7 @@ func (P) Gen(r *core.Rand, tier string, emit func([]string)) {
 				if r.Chance(2, 3) && len(c) > 2 { // mostly multi-range: the responses that are assembled in a scratch buffer
 					h = core.HexS(fmt.Sprintf("bytes=0-%d,%d-%d", r.Intn(len(c)), r.Intn(len(c)), len(c)+r.Intn(3)))
 				} else {
-					h = core.HexS(asciiRange(len(c)))
+					h = core.HexS(asciiRange(r, len(c)))
 				}
 			}
 			ops = append(ops, "hold "+opn+" "+core.Hex(c)+" "+h)
@@ -725,6 +770,63 @@ func (P) Gen(r *core.Rand, tier string, emit func([]string)) {
 		}
 		ops = append(ops, "drain "+strings.Join(ps, ","))
 		emit(ops)
+	}
+	// one modifier instance, one path, the file rewritten (shorter, longer, same length) between requests
+	nFile := 40
+	if tier == "thorough" {
+		nFile = 600
+	}
+	{
+		cp := *r // own stream: the cases after this block stay what they were
+		rf := (&cp).Fork()
+		for i := 0; i < nFile; i++ {
+			var ops []string
+			prev := -1
+			k := rf.Range(3, 6)
+			for j := 0; j < k; j++ {
+				c := genContent(rf, tier)
+				if prev >= 0 && rf.Chance(1, 2) { // a length related to the previous one
+					n := prev + rf.Pick2(-1, 1)*rf.Range(1, 8)
+					if rf.Chance(1, 4) {
+						n = prev / 2
+					}
+					if n < 0 {
+						n = 0
+					}
+					c = make([]byte, n)
+					for x := range c {
+						c[x] = byte('A' + (x*5+j)%26)
+					}
+				}
+				h := "none"
+				if !rf.Chance(1, 8) {
+					switch {
+					case prev >= 0 && rf.Chance(1, 2): // positions between the two lengths, around both ends
+						lo, hi := prev, len(c)
+						if lo > hi {
+							lo, hi = hi, lo
+						}
+						a := rf.Range(0, lo+1)
+						b := rf.Range(lo, hi+2)
+						switch rf.Intn(4) {
+						case 0:
+							h = core.HexS(fmt.Sprintf("bytes=%d-%d", a, b))
+						case 1:
+							h = core.HexS(fmt.Sprintf("bytes=%d-", rf.Range(lo, hi+1)))
+						case 2:
+							h = core.HexS(fmt.Sprintf("bytes=%d-%d", rf.Range(lo, hi+1), hi+rf.Intn(3)))
+						default:
+							h = core.HexS(fmt.Sprintf("bytes=0-%d,%d-%d", a, rf.Range(lo, hi+1), b))
+						}
+					default:
+						h = core.HexS(asciiRange(rf, len(c)))
+					}
+				}
+				ops = append(ops, "sfile "+core.Hex(c)+" "+h)
+				prev = len(c)
+			}
+			emit(ops)
+		}
 	}
 	for i := 0; i < nPath; i++ {
 		var ops []string
